@@ -35,7 +35,7 @@ fn flat(width: u32) -> Vec<Reg> {
     (1..=width).map(|t| Reg::Sys { tag: t, name: format!("s{}", t), deps: vec![], reads: vec![], writes: vec![100 + t], time: 3, kind: SysKind::Dynamic }).collect()
 }
 
-/// cfg: user | default | batch | async | foreign | defforeign (default pool) | asyncforeign | asyncdefforeign | asyncdouble | defbatch | batchfirst ; returns "arrived=<max simultaneously inside>;timeout=<0|1>;ok=<0|1>" per repetition
+/// cfg: user | default | batch | async | batch2 | batchdeep | foreign | defforeign (default pool) | asyncforeign | asyncdefforeign | asyncdouble | defbatch | batchfirst ; returns "arrived=<max simultaneously inside>;timeout=<0|1>;ok=<0|1>" per repetition
 pub fn observe(cfg: &str, width: u32, pool_size: usize, reps: u32, limit_ms: u64) -> String {
     let rec = Recorder::new(MapMode::B);
     rec.set_caller();
@@ -43,6 +43,21 @@ pub fn observe(cfg: &str, width: u32, pool_size: usize, reps: u32, limit_ms: u64
     let regs: Vec<Reg> = if cfg == "batch" || cfg == "batchfirst" {
         vec![Reg::Batch { tag: 1000, name: "b".into(), deps: vec![], creads: vec![], cwrites: vec![], time: 5, count: 1,
                           ctl: CtlKind { menu: 0, multi: false }, inner: flat(width) }]
+    } else if cfg == "batch2" {
+        // the wide stage sits in a batch that ALSO contains a (narrow) nested batch, registered first
+        let nested = vec![Reg::Sys { tag: 1002, name: "n".into(), deps: vec![], reads: vec![], writes: vec![301], time: 3, kind: SysKind::Dynamic }];
+        let mut inner = vec![Reg::Batch { tag: 1001, name: "nb".into(), deps: vec![], creads: vec![], cwrites: vec![], time: 1, count: 1,
+                                          ctl: CtlKind { menu: 0, multi: false }, inner: nested }];
+        inner.push(Reg::Barrier);
+        inner.extend(flat(width));
+        vec![Reg::Batch { tag: 1000, name: "b".into(), deps: vec![], creads: vec![], cwrites: vec![], time: 5, count: 1,
+                          ctl: CtlKind { menu: 0, multi: false }, inner }]
+    } else if cfg == "batchdeep" {
+        // the wide stage sits two batches deep
+        let mid = vec![Reg::Batch { tag: 1001, name: "nb".into(), deps: vec![], creads: vec![], cwrites: vec![], time: 5, count: 1,
+                                    ctl: CtlKind { menu: 0, multi: false }, inner: flat(width) }];
+        vec![Reg::Batch { tag: 1000, name: "b".into(), deps: vec![], creads: vec![], cwrites: vec![], time: 5, count: 1,
+                          ctl: CtlKind { menu: 0, multi: false }, inner: mid }]
     } else if cfg == "defbatch" {
         // a narrow batch registered FIRST (its builder shares the pool handle and is built first), then the wide stage
         let inner = vec![Reg::Sys { tag: 1001, name: "i".into(), deps: vec![], reads: vec![], writes: vec![300], time: 3, kind: SysKind::Dynamic }];
@@ -58,6 +73,17 @@ pub fn observe(cfg: &str, width: u32, pool_size: usize, reps: u32, limit_ms: u64
         let old = std::env::var("RAYON_NUM_THREADS").ok();
         std::env::set_var("RAYON_NUM_THREADS", "1");
         let o = build(&regs, &rec, None);
+        match old { Some(v) => std::env::set_var("RAYON_NUM_THREADS", v), None => std::env::remove_var("RAYON_NUM_THREADS") }
+        o
+    } else if cfg == "batch" || cfg == "batch2" || cfg == "batchdeep" {
+        // the user's pool is attached to the outermost builder only (add_batch hands it on to the batches)
+        // (any default pool created on the way - for a batch nested deeper than one level - is kept tiny, so that it shows
+        // if such a batch does not end up on the user's pool)
+        let old = std::env::var("RAYON_NUM_THREADS").ok();
+        std::env::set_var("RAYON_NUM_THREADS", "1");
+        POOL_OUTER_ONLY.with(|c| c.set(true));
+        let o = build(&regs, &rec, Some(&pool));
+        POOL_OUTER_ONLY.with(|c| c.set(false));
         match old { Some(v) => std::env::set_var("RAYON_NUM_THREADS", v), None => std::env::remove_var("RAYON_NUM_THREADS") }
         o
     } else { build(&regs, &rec, Some(&pool)) };
